@@ -314,7 +314,10 @@ func (u *Unit) callBuiltin(st *State, name string, c *ast.CallExpr) []Val {
 			}
 			acc = Val{T: sIte(app(op, acc.T, b.T), acc.T, b.T), Ty: rt, So: "Int"}
 		}
-		return []Val{acc}
+		// name the result: an ite inside a slice term would end up in quantifier triggers
+		nm := u.fresh(name, "Int")
+		st.assume(sEq(nm, acc.T))
+		return []Val{{T: nm, Ty: rt, So: "Int"}}
 	case "delete":
 		m := u.eval(st, c.Args[0])
 		mt := m.Ty.Underlying().(*types.Map)
@@ -1080,7 +1083,7 @@ func (u *Unit) joinN(base *State, arms []*State, extra [][]Val) (*State, []Val) 
 		t := pick(func(s *State) (string, bool) { v, ok := s.heap[k]; return v, ok }, "", "")
 		delete(out.heap, k)
 		out.heap[k] = t
-		if len(t) > 120 {
+		if strings.HasPrefix(t, "(ite ") {
 			n := u.fresh(k, u.heapSorts[k])
 			out.assume(sEq(n, t))
 			out.heap[k] = n
